@@ -131,6 +131,7 @@ func nextPrime(n uint64) uint64 {
 
 func main() {
 	run := vr.New("C06", "exploration")
+	defer run.Recover()
 	freepass.MaybeReplay(run)
 	sched.OnSpin = func(frame string) {
 		run.Violation("hangs|cpu-spin|"+frame, "the key exchange never completes: a client thread has been computing inside "+frame+" for 120 s without reaching any synchronisation point (a loop that does not end); the exploration stops here", map[string]any{"fault": "cpu-spin", "frame": frame})
